@@ -459,9 +459,14 @@ void Ctx::c07() {
             std::vector<std::pair<ns_t, ns_t>> busy;
             {   // limit reached, as the broker sees it (acknowledgements count from their delivery to the client)
                 std::vector<std::pair<ns_t, int>> ev;
+                std::set<uint16_t> counted;
                 for (int ri : recv_by_conn[ci]) {
                     auto& r = B.recv[ri];
-                    if (!r.decode_err.empty() || r.pkt.type != PUBLISH || r.pkt.qos == 0) continue;
+                    if (!r.decode_err.empty()) continue;
+                    // an exchange resumed from an earlier connection by its PUBREL is still incomplete: it holds a slot as well
+                    bool resumed_rel = r.pkt.type == PUBREL && !counted.count(r.pkt.pid);
+                    if (!(r.pkt.type == PUBLISH && r.pkt.qos > 0) && !resumed_rel) continue;
+                    if (r.pkt.type == PUBLISH) counted.insert(r.pkt.pid);
                     ev.push_back({r.first_group ? s.net.groups[r.first_group - 1].t_start : r.t, +1});   // the slot is taken when the client hands the packet over
                     ns_t end = -1;
                     for (int si : bc->sent) { auto& sp = B.sent[si];
